@@ -1,6 +1,6 @@
 (* Proofs/Pop3Bridge.v — the terminator of multi-line POP3 replies of Model/Pop3M.v IS
    pop3_client.end_multiline as regenerated from the source on every run (Gen/DotStuff.v). *)
-From Asimap Require Import Base.Res Base.Bytes Spec.Pop3Spec Model.Pop3M.
+From Asimap Require Import Base.Res Base.Bytes Gen.DotStuff Spec.Pop3Spec Model.Pop3M Proofs.Pop3P.
 From Asimap Require Gen.DotStuff.
 From Coq Require Import Lia ZArith List Bool.
 Open Scope Z_scope.
@@ -31,4 +31,12 @@ Proof.
   unfold Gen.DotStuff.end_multiline, Pop3M.end_multiline, crlf. rewrite ends_crlf_endswith.
   replace (bytes_is_empty d) with (is_nil d) by (destruct d; reflexivity).
   destruct (negb (is_nil d) && negb (ends_crlf d)); reflexivity.
+Qed.
+
+Theorem generated_wire_roundtrip d :
+  exists p w, dot_stuff d = Ok p /\ Asimap.Gen.DotStuff.end_multiline p = Ok w /\
+    receive w = Some (if negb (is_nil d) && negb (ends_crlf d) then d ++ crlf else d).
+Proof.
+  destruct (stuffing d) as [p [Hp [_ [_ Hr]]]].
+  exists p, (Pop3M.end_multiline p). split; [exact Hp|]. split; [apply end_multiline_is_generated|exact Hr].
 Qed.
